@@ -140,7 +140,7 @@ func (o *Observer) Classify(dir Dir, data []byte) ([]string, any) {
 	}
 	for _, p := range pkts {
 		add(p.Kind)
-		if p.Kind != "1rtt" && p.Kind != "undecryptable" && p.Kind != "garbage" {
+		if p.Kind != "1rtt" && p.Kind != "undecryptable" && p.Kind != "garbage" && p.Kind != "dgram-padding" {
 			add("long")
 		}
 	}
@@ -157,6 +157,11 @@ func (o *Observer) Decode(dir Dir, data []byte) []*Packet {
 	var out []*Packet
 	rest := data
 	for len(rest) > 0 {
+		if len(out) > 0 && allZero(rest) {
+			// zero bytes after the last packet: datagram padding outside any QUIC packet (UDPDatagramMinSize)
+			out = append(out, &Packet{Kind: "dgram-padding", Len: len(rest), Raw: rest})
+			break
+		}
 		if !refwire.IsLongHeader(rest[0]) {
 			out = append(out, o.decodeShort(dir, rest))
 			break
@@ -390,3 +395,12 @@ func CryptoStream(pkts []*Packet, kind string) (data []byte, conflict bool, maxE
 
 // HexEq compares two byte slices.
 func HexEq(a, b []byte) bool { return bytes.Equal(a, b) }
+
+func allZero(b []byte) bool {
+	for _, x := range b {
+		if x != 0 {
+			return false
+		}
+	}
+	return true
+}
